@@ -74,20 +74,31 @@ fn t_acq(g: &Grid) -> u64 {
 ///   low-discrepancy sequence  1 us + 2 J          (observed over four seeds: at most 0.56 J)
 ///   strictly alternating      100 us + 2 J        (adversarial: the servo answers long runs of
 ///                                                  equal samples with bursts; observed 55 us)
-/// plus 25 J when the execution contains departures: a flipped frame is an outlier of size J; under
-/// constant delay the noise estimate is near zero, the outlier is trusted and answered with a
-/// frequency change of J per Sync interval, and the outlier then inflates the noise estimate for the
-/// next 32 samples, so the wrong frequency is unlearnt slowly - observed 5.8 J fifty seconds later
-/// at 2 s intervals.
-fn bound_bits(g: &Grid, departures: bool) -> i128 {
+/// An execution with departures is still a realisation of jitter inside the same envelope (a
+/// flipped frame takes the other extreme of the envelope, a lost frame takes none), so its bound is
+/// the bound of its envelope: unchanged for the two jittered patterns, and 1 us + 2 J for a constant
+/// delay with flipped frames (whose envelope is then J wide, not 0).
+fn bound_bits(g: &Grid, dev: &[(usize, usize)]) -> i128 {
     let j = g.jitter_ns as i128;
+    let flipped = dev.iter().any(|d| d.1 == 1);
     let base = match g.pattern {
         _ if g.jitter_ns == 0 => 1_000,
+        0 if flipped => 1_000 + 2 * j,
         0 => 1_000,
         1 => 100_000 + 2 * j,
         _ => 1_000 + 2 * j,
     };
-    (base + if departures { 25 * j } else { 0 }) << 32
+    base << 32
+}
+
+/// the class of executions a violation belongs to (part of its signature): an otherwise constant
+/// delay with isolated frames delayed by J is the history of the known finding (DESIGN.md 8.3)
+fn class_of(g: &Grid, dev: &[(usize, usize)]) -> &'static str {
+    if g.pattern == 0 && g.jitter_ns > 0 && dev.iter().any(|d| d.1 == 1) {
+        ":isolated-outlier-on-constant-delay"
+    } else {
+        ""
+    }
 }
 
 pub struct Outcome {
@@ -110,7 +121,8 @@ pub fn run_one(g: &Grid, dev: &[(usize, usize)], window: (u64, u64), horizon_s: 
     let Some(slave_at) = slave_at else {
         return Outcome { violations: vec![("never-slave".into(), "the port never became slave".into())], choice_points: res.choice_points, settled_at: None, worst_after: 0 };
     };
-    let bound = bound_bits(g, !dev.is_empty());
+    let bound = bound_bits(g, dev);
+    let class = class_of(g, dev);
     // last snapshot at which the bound is violated, last step command
     let last_bad = res.snapshots.iter().filter(|s| (s.offsets[1] - s.offsets[0]).abs() > bound).map(|s| s.t).max();
     let last_step = res.clock_cmds.iter().filter(|c| c.1 == 1 && matches!(c.3, ClockCmd::Step(_))).map(|c| c.0).max();
@@ -121,14 +133,14 @@ pub fn run_one(g: &Grid, dev: &[(usize, usize)], window: (u64, u64), horizon_s: 
         if b > deadline {
             let off = res.snapshots.iter().find(|s| s.t == b).map(|s| (s.offsets[1] - s.offsets[0])).unwrap_or(0);
             v.push((
-                "offset-not-within-bound".to_string(),
+                format!("offset-not-within-bound{class}"),
                 format!("true offset is {:.1} ns at t = {:.2} s, more than {:.0} s after the port became slave (bound {:.1} ns)", off as f64 / 4294967296.0, b as f64 / 1e9, t_acq(g) as f64 / 1e9, bound as f64 / 4294967296.0),
             ));
         }
     }
     if let Some(s) = last_step {
         if s > deadline {
-            v.push(("step-after-convergence".to_string(), format!("the clock was stepped at t = {:.2} s, more than {:.0} s after the port became slave", s as f64 / 1e9, t_acq(g) as f64 / 1e9)));
+            v.push((format!("step-after-convergence{class}"), format!("the clock was stepped at t = {:.2} s, more than {:.0} s after the port became slave", s as f64 / 1e9, t_acq(g) as f64 / 1e9)));
         }
     }
     // commands stay finite and within the servo's range
@@ -191,7 +203,20 @@ const LONG_HORIZON_S: u64 = 1800;
 const VERY_LONG_HORIZON_S: u64 = 9000;
 
 fn horizon(g: &Grid) -> u64 {
+    if let Some(h) = std::env::var("VERIF_C02_REPLAY_HORIZON_S").ok().and_then(|s| s.parse().ok()) {
+        return h;
+    }
     (t_acq(g) / SEC) + 12 + 60
+}
+
+/// executions with departures in the steady-state window are followed for four minutes after the
+/// window: a drift that ends in a step takes up to two minutes to get there
+fn horizon_for(g: &Grid, w: (u64, u64)) -> u64 {
+    if w.0 > 100 {
+        horizon(g).max(w.1 + 240)
+    } else {
+        horizon(g)
+    }
 }
 
 pub fn run(tier: Tier) -> i32 {
@@ -271,6 +296,17 @@ pub fn run(tier: Tier) -> i32 {
         results.extend(r);
         rep.cover("very_long_executions", json!({"count": long.len(), "horizon_s": VERY_LONG_HORIZON_S}));
     }
+    // the recorded history of the known finding (DESIGN.md 8.3), in every tier: a constant delay,
+    // one frame of the steady-state window delayed by J
+    {
+        let g = Grid { offset_ns: -30_000_000, ppm: 150.0, delay_ns: 1_000, jitter_ns: 20_000, log_sync: 1, log_delay: 1, pattern: 0, tx_ts_latency_ns: 5_000, one_step: true };
+        let w = (t_acq(&g) / SEC + 15, t_acq(&g) / SEC + 19);
+        let dev = vec![(2usize, 1usize)];
+        let mut viols = vec![];
+        let o = run_one(&g, &dev, w, horizon_for(&g, w));
+        viol(&g, w, &dev, o.violations, &mut viols);
+        results.push((1, viols, None, 0, 0));
+    }
     // bounds 1 and 2
     /// returns false when the wall-clock budget ran out before the enumeration was complete
     fn explore(g: &Grid, w: (u64, u64), h: u64, prefix: &mut Vec<(usize, usize)>, pts: &[usize], k: usize, execs: &mut u64, out: &mut Vec<(Vec<(usize, usize)>, Vec<(String, String)>)>, over: &dyn Fn() -> bool) -> bool {
@@ -315,7 +351,6 @@ pub fn run(tier: Tier) -> i32 {
                     return None;
                 }
                 let g = &gs[gi];
-                let h = horizon(g);
                 let mut execs = 0;
                 let mut viols = vec![];
                 let mut points = 0;
@@ -323,6 +358,7 @@ pub fn run(tier: Tier) -> i32 {
                 // quick has no budget inside a grid point (the same set on every run)
                 let over = || tier == Tier::Thorough && started.elapsed().as_secs_f64() > budget;
                 for w in windows_of(g) {
+                    let h = horizon_for(g, w);
                     let base = run_one(g, &[], w, h);
                     execs += 1;
                     points = points.max(base.choice_points.len());
@@ -383,7 +419,7 @@ pub fn run(tier: Tier) -> i32 {
     rep.cover("exhaustive", json!(true));
     rep.cover("samples", json!(gs.iter().step_by(gs.len() / 4 + 1).map(|g| json!(g)).collect::<Vec<_>>()));
     rep.assume("'states'/'transitions' count complete closed-loop executions (each one trace of a real master port, a real slave port and the real Kalman filter); the slave's clock is an exact oscillator model steered only through statime::Clock");
-    rep.assume("bounds: |true offset| <= 1 us (constant delay) / 1 us + 2 J (low-discrepancy jitter) / 100 us + 2 J (strictly alternating jitter), + 25 J in executions with departures, from 600 s after the port became slave until the horizon (1800 s for the default executions, 60 s after the deadline for executions with departures), no step after that deadline; symmetric path; two-step master (the repository's own) and the same master turned one-step by the link");
+    rep.assume("bounds: |true offset| <= 1 us (constant delay) / 1 us + 2 J (low-discrepancy jitter) / 100 us + 2 J (strictly alternating jitter), an execution with departures has the bound of its envelope (constant delay with flipped frames: 1 us + 2 J), from 600 s after the port became slave until the horizon (1800 s for the default executions, 60 s after the deadline for departures in the acquisition window, 240 s after the window for departures in the steady-state window), no step after that deadline; symmetric path; two-step master (the repository's own) and the same master turned one-step by the link");
     rep.finish()
 }
 
@@ -401,7 +437,7 @@ pub fn replay(r: &serde_json::Value) {
         }
     };
     {
-        let hz = if dev.is_empty() && w == (0, VERY_LONG_HORIZON_S) { VERY_LONG_HORIZON_S } else if dev.is_empty() && w == (0, 0) { LONG_HORIZON_S } else { horizon(&g) };
+        let hz = if dev.is_empty() && w == (0, VERY_LONG_HORIZON_S) { VERY_LONG_HORIZON_S } else if dev.is_empty() && w == (0, 0) { LONG_HORIZON_S } else { horizon_for(&g, w) };
         let w = if w == (0, VERY_LONG_HORIZON_S) { (0, 0) } else { w };
         let spec = spec_of(&g, hz, w);
         let mut choices = Choices::with(&dev);
@@ -423,7 +459,7 @@ pub fn replay(r: &serde_json::Value) {
             }
         }
     }
-    let o = run_one(&g, &dev, w, if dev.is_empty() && w == (0, 0) { LONG_HORIZON_S } else { horizon(&g) });
+    let o = run_one(&g, &dev, w, if dev.is_empty() && w == (0, 0) { LONG_HORIZON_S } else { horizon_for(&g, w) });
     println!("grid {:?} deviations {:?}: settled {:?} ns after slave, worst offset after the deadline {:.1} ns", g, dev, o.settled_at, o.worst_after as f64 / 4294967296.0);
     for (s, m) in o.violations {
         println!("VIOLATION {s} :: {m}");
